@@ -32,7 +32,7 @@ type mVal struct {
 
 // hookSpec is harness knowledge about a deposit payload it built itself.
 type hookSpec struct {
-	Class  string // garbage | good | failmsg | badsig | staleseq | hungry | unrouted
+	Class  string // garbage | good | failmsg | badsig | staleseq | hungry | unrouted | wdhook | nested (the payload relays this very deposit again)
 	Signer string // label of the signing key
 	Seq    uint64 // account sequence the payload was signed with
 	Sends  []hookSend
@@ -43,7 +43,7 @@ type hookSpec struct {
 // authenticates: the payload decodes and carries a valid signature (so the
 // signer's account sequence is consumed if the sequence matches).
 func (h *hookSpec) authenticates() bool {
-	return h.Class == "good" || h.Class == "failmsg" || h.Class == "hungry" || h.Class == "unrouted" || h.Class == "wdhook"
+	return h.Class == "good" || h.Class == "failmsg" || h.Class == "hungry" || h.Class == "unrouted" || h.Class == "wdhook" || h.Class == "nested"
 }
 
 type hookSend struct {
@@ -283,6 +283,19 @@ func (m *modelL2) stepDeposit(x *opchildtypes.MsgFinalizeTokenDeposit, bc blockC
 						expect = triBand
 					}
 				}
+			}
+		case hs.Class == "nested":
+			// the payload relays the deposit that is being finalized: for a signer who is a bridge executor that is a
+			// replay of a processed sequence (a no-op), for anybody else an unauthorised message (the hook fails)
+			switch {
+			case m.SeqUnsure[hs.Signer]:
+				expect = triBand
+			case hs.Seq != m.AcctSeq[hs.Signer] || !m.isExecutor(sdk.AccAddress(keyAddrOf(hs.Signer)).String()):
+				expect = triNo
+			case m.Params.HookMaxGas < 200_000:
+				expect = triBand
+			default:
+				expect = triYes
 			}
 		case hs.Class != "good":
 			expect = triNo
